@@ -49,6 +49,8 @@ class MapUnwrap(Rule):
             um = re.compile(r"\s*\.\s*unwrap\(\)").match(m, pc + 1)
             if not um:
                 raise GenError("construct outside the dialect: .map(|_| ..) not followed by .unwrap()")
+            if re.search(r"\breturn\b|\?", m[item.body_open + x.end():pc]):
+                raise GenError("construct outside the dialect: `return` or `?` inside the .map(|_| ..) closure (it would become a return of the host function)")
             # statement start: walk back to the previous ';' or '{'
             j = st
             while j > item.body_open and m[j - 1] not in ";{}":
